@@ -3,7 +3,7 @@ use program_structure::report::ReportCollection;
 
 use crate::errors::TupleError;
 
-pub(crate) trait ContainsExpression {
+pub trait ContainsExpression {
     /// Returns true if `self` contains `expr` such that `matcher(expr)`
     /// evaluates to true. If the callback is not `None` it is invoked on
     /// `expr.meta()` for each matching expression.
